@@ -131,7 +131,14 @@ def unaryTable : List (String × TagRule) :=
   ++ (["buffered", "transform", "round", "boundary", "qr2sample", "polygon"].map (fun n => ("BoundingBox." ++ n, TagRule.keep)))
   ++ [("BoundingBox.to_crs", .target)]
 
-def findUnary (name : String) : Option TagRule := (unaryTable.find? (·.1 = name)).map (·.2)
+/-- the single-operand operations of `GeoBox` (geobox.py) that return a GeoBox / Geometry / BoundingBox:
+every view or derived grid keeps the CRS (their arithmetic is C02's model) -/
+def unaryTableGeoBox : List (String × TagRule) :=
+  (["pad", "pad_wh", "zoom_out", "zoom_to", "flipx", "flipy", "left", "right", "top", "bottom", "buffered",
+    "center_pixel", "translate_pix", "rotate", "extent", "boundingbox"].map (fun n => ("GeoBox." ++ n, TagRule.keep)))
+  ++ [("GeoBox.to_crs", .target)]
+
+def findUnary (name : String) : Option TagRule := ((unaryTable ++ unaryTableGeoBox).find? (·.1 = name)).map (·.2)
 
 /-- the CRS of the result: `arg` is the normalised `crs` argument where there is one -/
 def unaryTag (rule : TagRule) (self : Tag) (arg : Tag) : Tag :=
